@@ -13,6 +13,8 @@ enum Case {
     All { cid: Cid, n: usize, first: u8 },
     /// length `n` at symbol offset `s`: one pattern (quick) or the P(n) family (thorough)
     Shaped { cid: Cid, n: usize, s: usize },
+    /// a long sequence (4..16 words): one pattern pair
+    Long { cid: Cid, n: usize, s: usize },
 }
 
 fn all_bound(t: Tier) -> f64 {
@@ -37,6 +39,11 @@ fn gen(t: Tier, _seed: u64, emit: &mut dyn FnMut(Case)) {
                 emit(Case::Shaped { cid, n, s });
             }
         }
+        for n in long_lengths(bits) {
+            for s in [0usize, 1, noff(bits) / 2 + 1, noff(bits) - 1] {
+                emit(Case::Long { cid, n, s });
+            }
+        }
         if t.thorough() {
             for n in [3 * spw - 1, 3 * spw, 3 * spw + 1, 4 * spw + 1] {
                 for s in 0..noff(bits) {
@@ -49,7 +56,7 @@ fn gen(t: Tier, _seed: u64, emit: &mut dyn FnMut(Case)) {
 
 fn run(c: &Case, out: &mut Out) {
     match c {
-        Case::All { cid, .. } | Case::Shaped { cid, .. } => dispatch!(*cid, run_g(c, out)),
+        Case::All { cid, .. } | Case::Shaped { cid, .. } | Case::Long { cid, .. } => dispatch!(*cid, run_g(c, out)),
     }
 }
 
@@ -70,6 +77,13 @@ fn run_g<A: Sx>(c: &Case, out: &mut Out) {
                 let s = (rest.iter().map(|&x| x as usize).sum::<usize>() + *first as usize) % noff(A::BITS as usize);
                 one::<A>(&content, s, (s * 7 + 1) % noff(A::BITS as usize), out);
             });
+        }
+        Case::Long { n, s, .. } => {
+            let nof = noff(A::BITS as usize);
+            for variant in 0..2 {
+                let content = syms::<A>(&bg(*n, m, 300 + variant + 10 * (*s as u64), out.seed));
+                one::<A>(&content, *s, (*s + nof / 2 + 1) % nof, out);
+            }
         }
         Case::Shaped { n, s, .. } => {
             let nof = noff(A::BITS as usize);
